@@ -69,6 +69,12 @@ def run(ctx):
                            ("digits", "a = %s\n" % ("1" * n)), ("fraction", "a = 1.%s\n" % ("1" * n)), ("fraction-digits-of-time", "a = 00:00:00.%s\n" % ("1" * n)),
                            ("key", "%s = 1\n" % ("k" * n)), ("commas", "a = [%s]\n" % ("1," * n)), ("comment", "#%s\n" % ("#" * n))):
             runs.append({"id": "run-%s-%d" % (name, n), "text": core.cps(text)})
+    # single values with blanks around them (Value::from_str takes exactly one value) and multi-byte content
+    for j, v in enumerate(('"\u00e9"', "'\u4e2d'", '["\u00e9", 1]', '{ k = "\u4e2d" }', '1979-05-27', '1.5', '"""\n\u00e9"""')):
+        for a in ("", " ", "  ", "\t\t", "   "):
+            for b in ("", " ", "\t"):
+                if a or b:
+                    runs.append({"id": "value-%d-%d-%d" % (j, len(a), len(b)), "text": core.cps(a + v + b)})
     rp = ctx.path("runs.ndjson")
     core.write_ndjson(rp, runs)
     ins.append(("runs", rp))
